@@ -449,6 +449,7 @@ func init() {
 			Scenario{Name: "diagnostic-culprits", Count: func(string) int { return len(c08Culprits) * len(c08Layouts) }, Run: func(_ string, idx int, r *Result) { c08CulpritRun(idx, r) }},
 			Scenario{Name: "positions-of-failing-runtime-casts", Count: func(string) int { return c08CastCount() }, Run: func(_ string, idx int, r *Result) { c08CastRun(idx, r) }},
 			Scenario{Name: "caught-exceptions-across-modules", Count: func(string) int { return c08CaughtCount() }, Run: func(_ string, idx int, r *Result) { c08CaughtRun(idx, r) }},
+			Scenario{Name: "number-literals-that-do-not-fit-their-type", Count: func(string) int { return c08LitCount() }, Run: func(_ string, idx int, r *Result) { c08LitRun(idx, r) }},
 			Scenario{Name: "import-list-culprits", Count: func(string) int { return c08ImpCount() }, Run: func(_ string, idx int, r *Result) { c08ImpRun(idx, r) }},
 			Scenario{Name: "type-flow-culprits", Count: func(string) int { return c08FlowCount() }, Run: func(_ string, idx int, r *Result) { c08FlowRun(idx, r) }},
 			Scenario{Name: "front-end-positions-of-edited-texts", Count: c08MutCount, Run: c08MutRun},
